@@ -734,7 +734,12 @@ def seq_equals(s1: Union["ISeq", ISequential], s2: Any) -> bool:
     for e1, e2 in itertools.zip_longest(s1, s2, fillvalue=sentinel):  # type: ignore[arg-type]
         if bool(e1 is sentinel) or bool(e2 is sentinel):
             return False
-        if e1 != e2:
+        # As in `basilisp.lang.runtime.equals`: booleans and nil are only equal to
+        # themselves (Python considers 1 == True and 0 == False)
+        if isinstance(e1, (bool, type(None))) or isinstance(e2, (bool, type(None))):
+            if e1 is not e2:
+                return False
+        elif e1 != e2:
             return False
     return True
 
